@@ -79,7 +79,7 @@ Seek == /\ IsEv("seek")
                /\ tgt' = t
                /\ pos' = [pos EXCEPT ![E.r] =
                             IF t = Unknown THEN (IF E.e = "nil" THEN E.ret ELSE Unknown)
-                            ELSE IF t < 0 THEN Unknown ELSE t]
+                            ELSE IF t < 0 THEN p ELSE t]   \* a refused seek leaves the position where it was (FileRead.Seek)
         /\ firstReq' = AddReq(firstReq, E.loads)
         /\ UNCHANGED <<B, content, L, cmode, dagEq, missing, mode>>
 
@@ -104,9 +104,13 @@ Subset == /\ IsEv("subset")
 \* the environment makes every block available again; readers and nodes keep their state
 Heal == /\ IsEv("heal") /\ missing' = {}
         /\ UNCHANGED <<B, content, L, cmode, dagEq, mode, pos, pre, tgt, firstReq>>
+\* the builder returned a link whose DAG the independent walker cannot read back from the store
+Unwalkable == /\ IsEv("unwalkable")
+              /\ UNCHANGED <<B, content, L, cmode, dagEq, missing, mode, pos, pre, tgt, firstReq>>
 Done == l = Len(Trace) + 1 /\ UNCHANGED vars
 
-Next == Reset \/ Dag \/ OpenNode \/ Open \/ Seek \/ Read \/ Whole \/ Budget \/ Heal \/ Subset \/ Done
+Crash == IsEv("crash") /\ UNCHANGED <<B, content, L, cmode, dagEq, missing, mode, pos, pre, tgt, firstReq>>
+Next == Crash \/ Reset \/ Dag \/ OpenNode \/ Open \/ Seek \/ Read \/ Whole \/ Budget \/ Heal \/ Subset \/ Unwalkable \/ Done
 TraceSpec == Init /\ [][Next]_vars
 
 (***************************************************************************)
@@ -128,12 +132,14 @@ Cond_Harness_WF == (Has /\ Ev.ev = "dag") => (TableWF(B) /\ (cmode = "bytes" => 
 Cond_Harness_NoBudget == TRUE
 
 \* no API call may panic (the harness records a recovered panic as e = "panic")
-Cond_NoPanic == (Has /\ "e" \in DOMAIN Ev) => Ev.e # "panic"
+NoCrash == ~(l > 1 /\ Trace[l - 1].ev = "crash")   \* the code under test took the whole harness process down (driver: mark_crash)
+Cond_NoPanic == NoCrash /\ ((Has /\ "e" \in DOMAIN Ev) => Ev.e # "panic")
 
 \* C01: the stored DAG holds the bytes; sizes; whole-value and streamed reads
 Cond_C01_Dag == (Has /\ Ev.ev = "dag") =>
                  /\ dagEq /\ B[1].hi = L
                  /\ \A i \in Idx(B) : B[i].fsize # -1 => B[i].fsize = B[i].hi - B[i].lo
+Cond_C01_Stored == (Has /\ Ev.ev = "unwalkable") => FALSE   \* every block of a built file is in the store
 Cond_C01_Read == (Has /\ Ev.ev = "read" /\ pre >= 0 /\ NoFault) =>
                  /\ Ev.e # "err"
                  /\ ReadShapeOK(pre, Ev.k, Ev.n, Ev.e, L)
@@ -154,19 +160,23 @@ Cond_C04_Seek == (Has /\ Ev.ev = "seek" /\ NoFault) =>
 Cond_C04_Read == Cond_C01_Read
 Cond_C04_NoBudget == (Has /\ Ev.ev = "budget") => FALSE
 
-\* C05: only what the request needs
+\* C05: only what the request needs.  A child that holds no bytes (lo = hi) has no byte span to intersect; the
+\* reader passes it when it walks from one neighbour to the next, so requesting it is accepted (never demanded)
+\* when the range reaches its position.
+ZeroAtC(a, b) == {B[i].c : i \in {j \in Idx(B) : B[j].lo = B[j].hi /\ a <= B[j].lo /\ B[j].lo <= b}}
+AllowedC(a, b) == NeededC(B, a, b) \cup ZeroAtC(a, b)
 Cond_C05_Read == (Has /\ Ev.ev = "read" /\ pre >= 0) =>
-                 \A m \in 1 .. Len(Ev.loads) : Ev.loads[m] \in NeededC(B, pre, pre + Max(Ev.k, 1))
+                 \A m \in 1 .. Len(Ev.loads) : Ev.loads[m] \in AllowedC(pre, pre + Max(Ev.k, 1))
 Cond_C05_Seek == (Has /\ Ev.ev = "seek") =>
                  \A m \in 1 .. Len(Ev.loads) :
-                    tgt >= 0 /\ Ev.loads[m] \in NeededC(B, tgt, tgt + 1)
+                    tgt >= 0 /\ Ev.loads[m] \in AllowedC(tgt, tgt + 1)
 Cond_C05_Open == (Has /\ (Ev.ev = "open" \/ (Ev.ev = "opennode" /\ Ev.how # "preload"))) =>
                  Ev.loads = <<>>
 
 \* the range [a,b) through a subset-matcher traversal: exactly those bytes, only the blocks the range needs
 Cond_C05_Subset == (Has /\ Ev.ev = "subset") =>
                  /\ NoFault => (Ev.e = "nil" /\ Ev.n = Ev.b - Ev.a /\ DataOK(Ev.a, Ev.n))
-                 /\ \A m \in 1 .. Len(Ev.loads) : Ev.loads[m] \in NeededC(B, Ev.a, Ev.b)
+                 /\ \A m \in 1 .. Len(Ev.loads) : Ev.loads[m] \in AllowedC(Ev.a, Ev.b)
 
 \* C06: preload fetches the whole entity or fails
 Cond_C06_Preload == (Has /\ Ev.ev = "opennode" /\ Ev.how = "preload") =>
@@ -203,6 +213,7 @@ Chk(nm, c) == c \/ PrintT(<<"VIOL", nm, l - 1>>)
 Inv_Harness_WF == Chk("Inv_Harness_WF", Cond_Harness_WF)
 Inv_Harness_NoBudget == Chk("Inv_Harness_NoBudget", Cond_Harness_NoBudget)
 Inv_C01_Dag == Chk("Inv_C01_Dag", Cond_C01_Dag)
+Inv_C01_Stored == Chk("Inv_C01_Stored", Cond_C01_Stored)
 Inv_C01_Read == Chk("Inv_C01_Read", Cond_C01_Read)
 Inv_C01_Whole == Chk("Inv_C01_Whole", Cond_C01_Whole)
 Inv_C01_Open == Chk("Inv_C01_Open", Cond_C01_Open)
